@@ -6,6 +6,7 @@
 package main
 
 import (
+	"encoding/json"
 	"flag"
 	"fmt"
 	"os"
@@ -173,6 +174,22 @@ func main() {
 		}
 	}
 
+	// the recorded corpus, applied in memory: seeded defects this property's rules must report, and
+	// behaviour-preserving refactorings on which they must stay silent
+	if !*noSelf {
+		limit := 1
+		if *tier == "thorough" {
+			limit = 1 << 30
+		}
+		corpus := runCorpus(*repo, *verif, pr, limit, seed)
+		for _, r := range corpus {
+			if r.Status == "silent" || r.Status == "false-alarm" {
+				broken = append(broken, "corpus: "+r.Line())
+			}
+		}
+		selfRes = append(selfRes, corpus...)
+	}
+
 	if *verbose {
 		for _, o := range all {
 			fmt.Println(o.Line())
@@ -205,7 +222,7 @@ func main() {
 		if r.Status != "skipped" {
 			applied++
 		}
-		if r.Status == "fired" {
+		if r.Status == "fired" || r.Status == "quiet" {
 			fired++
 		}
 	}
@@ -337,4 +354,118 @@ func firstLine(s string) string {
 		return s[:i]
 	}
 	return s
+}
+
+// runCorpus applies the recorded seeded defects (/verif/seeded/*/patch.diff whose meta.json lists this
+// property) and the behaviour-preserving refactorings (/verif/benign/*.diff) to the current tree in
+// memory and runs the property's rules on each: a seeded defect must be reported, a refactoring must not.
+func runCorpus(repo, verif string, pr *rules.Property, limit int, seed int) []mutantResult {
+	type job struct {
+		kind, name, patch string
+		expect            []string
+	}
+	var seeds, benign []job
+	metas, _ := filepath.Glob(filepath.Join(verif, "seeded", "*", "meta.json"))
+	sort.Strings(metas)
+	for _, mf := range metas {
+		b, err := os.ReadFile(mf)
+		if err != nil {
+			continue
+		}
+		var m struct {
+			Violated map[string][]string `json:"violated_obligations"`
+		}
+		if json.Unmarshal(b, &m) != nil {
+			continue
+		}
+		keys, ok := m.Violated[pr.ID]
+		if !ok || len(keys) == 0 {
+			continue
+		}
+		seeds = append(seeds, job{"seed", filepath.Base(filepath.Dir(mf)), filepath.Join(filepath.Dir(mf), "patch.diff"), keys})
+	}
+	bs, _ := filepath.Glob(filepath.Join(verif, "benign", "*.diff"))
+	sort.Strings(bs)
+	for _, bf := range bs {
+		benign = append(benign, job{"benign", strings.TrimSuffix(filepath.Base(bf), ".diff"), bf, nil})
+	}
+	pick := func(js []job) []job {
+		if len(js) <= limit {
+			return js
+		}
+		var out []job
+		for k := 0; k < limit; k++ {
+			out = append(out, js[(seed+k)%len(js)])
+		}
+		return out
+	}
+	jobs := append(pick(seeds), pick(benign)...)
+	out := make([]mutantResult, len(jobs))
+	sem := make(chan struct{}, 4)
+	var wg sync.WaitGroup
+	for i, j := range jobs {
+		wg.Add(1)
+		go func(i int, j job) {
+			defer wg.Done()
+			sem <- struct{}{}
+			defer func() { <-sem }()
+			res := mutantResult{Rule: j.kind, Name: j.name}
+			defer func() {
+				if e := recover(); e != nil {
+					res.Status, res.Detail = "silent", fmt.Sprintf("rule panicked: %v", e)
+				}
+				out[i] = res
+			}()
+			diff, err := os.ReadFile(j.patch)
+			if err != nil {
+				res.Status, res.Detail = "skipped", err.Error()
+				return
+			}
+			overlay, err := core.ApplyUnifiedDiff(repo, string(diff))
+			if err != nil {
+				res.Status, res.Detail = "skipped", "patch no longer applies: "+firstLine(err.Error())
+				return
+			}
+			mp, err := core.Load(repo, overlay)
+			if err != nil {
+				res.Status, res.Detail = "skipped", "patched tree does not load: "+firstLine(err.Error())
+				return
+			}
+			var violated []string
+			for _, id := range pr.Rules {
+				r := rules.Get(id)
+				if r == nil {
+					continue
+				}
+				for _, o := range r.Run(mp) {
+					if o.Status != core.Held {
+						violated = append(violated, o.Key)
+					}
+				}
+			}
+			if j.kind == "benign" {
+				if len(violated) == 0 {
+					res.Status, res.Detail = "quiet", "no rule of this property fires on the refactoring"
+				} else {
+					res.Status, res.Detail = "false-alarm", violated[0]
+				}
+				return
+			}
+			for _, v := range violated {
+				for _, e := range j.expect {
+					if v == e {
+						res.Status, res.Detail = "fired", v
+						return
+					}
+				}
+			}
+			if len(violated) > 0 {
+				res.Status, res.Detail = "fired", violated[0]+" (a different obligation than recorded)"
+				return
+			}
+			res.Status, res.Detail = "silent", "recorded as detected by this property, but no rule reports it"
+		}(i, j)
+	}
+	wg.Wait()
+	return out
 }
